@@ -62,6 +62,7 @@ pub struct RefState {
     /// buffers of fetched gradients: a gradient slot (possibly of several arrays) may hold them too,
     /// so ownership of these buffers is not predicted
     pub grad_buffers: Vec<usize>,
+    no_dirs: bool,
 }
 
 /// exact mode: integers only (see `ir::is_dyadic`)
@@ -71,7 +72,7 @@ pub fn is_exact_value(v: f64) -> bool {
 
 impl RefState {
     pub fn new(dir_budget: usize) -> RefState {
-        RefState { nodes: Vec::new(), handles: Vec::new(), ndirs: 0, dir_budget, next_buffer: 0, grad_buffers: vec![] }
+        RefState { nodes: Vec::new(), handles: Vec::new(), ndirs: 0, dir_budget, next_buffer: 0, grad_buffers: vec![], no_dirs: false }
     }
     pub fn handle(&self, h: usize) -> &Handle {
         self.handles[h].as_ref().expect("dead handle")
@@ -82,7 +83,16 @@ impl RefState {
     pub fn live_handles(&self) -> Vec<usize> {
         (0..self.handles.len()).filter(|&h| self.handles[h].is_some()).collect()
     }
+    /// a model that only evaluates forward values: no tangent directions are ever allocated
+    pub fn forward_only() -> RefState {
+        let mut s = RefState::new(0);
+        s.no_dirs = true;
+        s
+    }
     fn alloc_dirs(&mut self, n: usize, force: bool) -> Option<usize> {
+        if self.no_dirs {
+            return None;
+        }
         if force || self.ndirs + n <= self.dir_budget {
             let d = self.ndirs;
             self.ndirs += n;
